@@ -3,7 +3,7 @@ from vlib.spec import Cond, I, B
 from harness import fam
 from harness.fam import conc, concb
 from harness.prog import (check_program, TaskD, SEQ, Y, TASK, ITEM, CONST, READ, WITH, TRY, RAISE, RET,
-                          SYNC, NONE, ENTER, LEAVE, OVERLAP)
+                          SYNC, NONE, ENTER, LEAVE, OVERLAP, WITHPRE)
 
 ENC_CTX = [
     "asynq/contexts.py: AsyncContext.__enter__/__exit__, NonAsyncContext.__enter__/__exit__/pause/resume, "
@@ -88,6 +88,10 @@ def ctx_wrap(kind, cid, ov, node):
         return OVERLAP(("rec", cid), ("rec", cid + "b"), node, Y(0, ITEM(0, ov)))
     if kind == 13:
         return OVERLAP(("sv", 0, ov), ("rec", cid), node, SEQ(READ(0), Y(0, ITEM(1, ov)), READ(0)))
+    if kind == 14:
+        # an override object that re-asserts the value current at its creation, created before the enclosing
+        # override of the same target is entered, and entered inside it
+        return WITHPRE(0, ov, node)
     raise AssertionError(kind)
 
 
